@@ -10,7 +10,14 @@ def generate(rng, tier="quick"):
     cfg = gen.gen_base_config(rng)
     pc = rng.choice([0.0, 0.3, 0.5, 0.8])
     maxc = rng.choice([1, 2, 3, 6])
-    steps = gen.interleave(rng, [gen.gen_lifecycle(rng, 0, maxc, pc), gen.gen_lifecycle(rng, 1, maxc, pc)])
+    # in some runs a "crash" is the death of the whole process (fresh copy of the library
+    # afterwards: nothing memoised survives), each node being its own process
+    procs = rng.random() < 0.12 and cfg["psets"][0]["group"]["kind"] in gen.CHEAP_TO_REIMPORT
+    if procs:
+        cfg["fresh_hosts"] = True
+        cfg["nodes"][0]["host"], cfg["nodes"][1]["host"] = 0, 1
+    steps = gen.interleave(rng, [gen.gen_lifecycle(rng, 0, maxc, pc, reboot_host=0 if procs else None),
+                                 gen.gen_lifecycle(rng, 1, maxc, pc, reboot_host=1 if procs else None)])
     # honest network: delay / reorder / duplicate only
     order = [(1, 0), (0, 1)]
     rng.shuffle(order)
